@@ -135,9 +135,9 @@ StepsFull == { Step(ax, t, p) : ax \in UsedAxes, t \in Tests, p \in Preds }
 StepsOfAxis(ax) == { Step(ax, t, p) : t \in Tests, p \in Preds }
 StepsBare == { Step(ax, t, <<>>) : ax \in UsedAxes, t \in Tests }
 \* first steps of multi-step paths
-LeadQuick == { <<Dos, Ch("b")>>, <<Dos, Step("child", TypeT("node"), <<>>)>>, <<Dos, AtS("x")>> }
+LeadQuick == { <<Dos, Ch("b")>>, <<Dos, Step("child", TypeT("node"), <<>>)>> }
 Lead == IF Tier # "thorough" THEN LeadQuick
-        ELSE LeadQuick \cup
+        ELSE LeadQuick \cup { <<Dos, AtS("x")>> } \cup
         { <<Ch("a")>>, <<Dos, Step("child", AnyT, <<>>)>>, <<Ch("a"), Ch("b")>>, <<Dos, Ch("c")>>,
           <<Ch("a"), Step("child", TypeT("node"), <<NumL(2)>>)>>, <<Dos, Step("child", TypeT("text"), <<>>)>>,
           <<Dos, Step("child", TypeT("comment"), <<>>)>>, <<Dos, Step("child", AnyT, <<NumL(1)>>), Up>> }
@@ -185,10 +185,14 @@ ArOps == {"or", "and", "=", "!=", "<", "<=", ">", ">=", "+", "-", "*", "div", "m
 Families == IF Tier = "tiny" THEN {"p1", "un", "fl"}
             ELSE {"p1", "p2", "un", "fl", "cmp", "fn", "ctx", "ns", "ar", "ar3"}
 
+\* the quick tier uses fewer documents for the operand-pool families
+DocsFor(f) == IF Tier = "quick" /\ f = "cmp" THEN {1, 2, 6}
+              ELSE IF Tier = "quick" /\ f \in {"un", "fl"} THEN {1, 2, 4, 6}
+              ELSE MainDocs
 Seeds ==
   { [fam |-> "p1", d |-> k, a |-> ax, b |-> 1] : k \in MainDocs, ax \in UsedAxes }
   \cup (IF "p2" \in Families THEN { [fam |-> "p2", d |-> k, a |-> ax, b |-> 1] : k \in MainDocs, ax \in UsedAxes } ELSE {})
-  \cup { [fam |-> f, d |-> k, a |-> "-", b |-> 1] : f \in Families \ {"p1", "p2", "ar", "ar3", "ctx", "ns"}, k \in MainDocs }
+  \cup UNION { { [fam |-> f, d |-> k, a |-> "-", b |-> 1] : k \in DocsFor(f) } : f \in Families \ {"p1", "p2", "ar", "ar3", "ctx", "ns"} }
   \cup (IF "ctx" \in Families THEN { [fam |-> "ctx", d |-> k, a |-> "-", b |-> 1] : k \in 1..7 } ELSE {})
   \cup (IF "ns" \in Families THEN { [fam |-> "ns", d |-> 8, a |-> "-", b |-> k] : k \in 1..Len(BindSeq) } ELSE {})
   \cup (IF "ar" \in Families THEN { [fam |-> f, d |-> 1, a |-> o, b |-> 1] : f \in {"ar", "ar3"}, o \in ArOps } ELSE {})
